@@ -601,12 +601,29 @@ func (f *Frame) execBlock(b *ssa.BasicBlock, st0 *State, g0 string) {
 			gs = append(gs, in.eg)
 		}
 		e.assume(eq(g, or(gs...)))
+		// the state that reaches b from predecessor p; leaving a loop through its header's exit edge sets the loop's
+		// "exited" flag (spec builtin exited(N)), leaving it by break/return does not
+		outMemo := map[*ssa.BasicBlock]*State{}
+		outOf := func(p *ssa.BasicBlock) *State {
+			if s, ok := outMemo[p]; ok {
+				return s
+			}
+			s := f.out[p]
+			if li, ok := f.loops[p]; ok && !li.body[b] && f.callerF == nil {
+				if _, used := e.heapSort[fmt.Sprintf("G$exited$%d", li.ordinal)]; used {
+					s = s.clone()
+					s.heap[e.exitedHeap(li.ordinal)] = "true"
+				}
+			}
+			outMemo[p] = s
+			return s
+		}
 		// merge state
-		st = f.out[ins[0].p].clone()
+		st = outOf(ins[0].p).clone()
 		if len(ins) > 1 {
 			names := map[string]bool{}
 			for _, in := range ins {
-				for h := range f.out[in.p].heap {
+				for h := range outOf(in.p).heap {
 					names[h] = true
 				}
 			}
@@ -617,9 +634,9 @@ func (f *Frame) execBlock(b *ssa.BasicBlock, st0 *State, g0 string) {
 			sort.Strings(hs)
 			for _, h := range hs {
 				same := true
-				first := f.out[ins[0].p].H(h)
+				first := outOf(ins[0].p).H(h)
 				for _, in := range ins[1:] {
-					if f.out[in.p].H(h) != first {
+					if outOf(in.p).H(h) != first {
 						same = false
 					}
 				}
@@ -628,24 +645,24 @@ func (f *Frame) execBlock(b *ssa.BasicBlock, st0 *State, g0 string) {
 					continue
 				}
 				c := e.freshConst(h, e.heapSort[h])
-				chain := f.out[ins[len(ins)-1].p].H(h)
+				chain := outOf(ins[len(ins)-1].p).H(h)
 				for k := len(ins) - 2; k >= 0; k-- {
-					chain = ite(ins[k].eg, f.out[ins[k].p].H(h), chain)
+					chain = ite(ins[k].eg, outOf(ins[k].p).H(h), chain)
 				}
 				e.assume(eq(c, chain))
 				st.heap[h] = c
 			}
 			same := true
 			for _, in := range ins[1:] {
-				if f.out[in.p].alloc != st.alloc {
+				if outOf(in.p).alloc != st.alloc {
 					same = false
 				}
 			}
 			if !same {
 				c := e.freshConst("alloc", "Int")
-				chain := f.out[ins[len(ins)-1].p].alloc
+				chain := outOf(ins[len(ins)-1].p).alloc
 				for k := len(ins) - 2; k >= 0; k-- {
-					chain = ite(ins[k].eg, f.out[ins[k].p].alloc, chain)
+					chain = ite(ins[k].eg, outOf(ins[k].p).alloc, chain)
 				}
 				e.assume(eq(c, chain))
 				st.alloc = c
@@ -653,14 +670,14 @@ func (f *Frame) execBlock(b *ssa.BasicBlock, st0 *State, g0 string) {
 			for r := range st.iters {
 				same := true
 				for _, in := range ins[1:] {
-					if f.out[in.p].iters[r] != st.iters[r] {
+					if outOf(in.p).iters[r] != st.iters[r] {
 						same = false
 					}
 				}
 				if !same {
 					c := e.freshConst("iter", sortOfTerm(e, r))
 					for _, in := range ins {
-						if t, ok := f.out[in.p].iters[r]; ok {
+						if t, ok := outOf(in.p).iters[r]; ok {
 							e.assume(implies(in.eg, eq(c, t)))
 						}
 					}
@@ -833,8 +850,11 @@ func (f *Frame) execInstr(b *ssa.BasicBlock, instr ssa.Instruction, st *State, g
 				}
 				if _, local := in.X.(*ssa.Alloc); !local {
 					for k, lo := range top.lockObjs {
-						f.oblige("lock", f.oblName(fmt.Sprintf("%s:table-access[%s]#%d.%d", funcDisplay(f.fn), stt.Field(in.Field).Name(), f.callSiteN("t:"+stt.Field(in.Field).Name()), k+1)), g, not(eq(f.loadLV(st, lo), "0")),
-							"a core table reached through the client is accessed only while the client mutex is held", []string{"C11"}, in.Pos())
+						need, why := not(eq(f.loadLV(st, lo), "0")), "a core table reached through the client is accessed only while the client mutex is held"
+						if usedForWrite(in) {
+							need, why = eq(f.loadLV(st, lo), "1"), "a field of a core table reached through the client is written only while the client mutex is held for writing"
+						}
+						f.oblige("lock", f.oblName(fmt.Sprintf("%s:table-access[%s]#%d.%d", funcDisplay(f.fn), stt.Field(in.Field).Name(), f.callSiteN("t:"+stt.Field(in.Field).Name()), k+1)), g, need, why, []string{"C11"}, in.Pos())
 					}
 				}
 			}
@@ -844,8 +864,11 @@ func (f *Frame) execInstr(b *ssa.BasicBlock, instr ssa.Instruction, st *State, g
 						for _, gf := range gs.Fields {
 							if gf == stt.Field(in.Field).Name() {
 								cur := f.loadLV(st, f.mutexHeld(f.mutexOf(x, in.X.Type(), gs)))
-								f.oblige("lock", f.oblName(fmt.Sprintf("%s:guarded[%s.%s]#%d", funcDisplay(f.fn), gs.Struct, gf, f.callSiteN("g:"+gf))), g, not(eq(cur, "0")),
-									"access to "+gs.Struct+"."+gf+" requires "+gs.Struct+"."+gs.Mutex+" to be held", []string{"C11"}, in.Pos())
+								need, why := not(eq(cur, "0")), "access to "+gs.Struct+"."+gf+" requires "+gs.Struct+"."+gs.Mutex+" to be held"
+								if usedForWrite(in) {
+									need, why = eq(cur, "1"), "writing "+gs.Struct+"."+gf+" (or the map it holds) requires "+gs.Struct+"."+gs.Mutex+" to be held for writing"
+								}
+								f.oblige("lock", f.oblName(fmt.Sprintf("%s:guarded[%s.%s]#%d", funcDisplay(f.fn), gs.Struct, gf, f.callSiteN("g:"+gf))), g, need, why, []string{"C11"}, in.Pos())
 							}
 						}
 					}
